@@ -460,12 +460,18 @@ def setup_app(case):
         _ss.time = _SimClock()
     if case.get('use_default'):
         # the process-wide default application, put back into its pristine configuration first
-        from ombott.router import RadiRouter
+        # (generic: every instance attribute is taken over from a newly constructed application, except the request /
+        # response objects, which the module-level names ombott.request / ombott.response refer to)
         app = ombott.default_app()
-        app.router = RadiRouter()
-        app.__dict__.pop('_hooks', None)
-        app._route_hooks = {}
-        app.error_handlers = {'404-hooks': {}}
+        fresh = ombott.Ombott()
+        keep = ('request', 'response', '__dict__', '__weakref__')
+        names = [n for c in type(app).__mro__ for n in getattr(c, '__slots__', ())] + list(fresh.__dict__)
+        for k in list(app.__dict__):
+            if k not in keep and k not in fresh.__dict__:
+                del app.__dict__[k]
+        for k in names:
+            if k not in keep and hasattr(fresh, k):
+                setattr(app, k, getattr(fresh, k))
         app.setup({})
     else:
         app = ombott.Ombott()
